@@ -5,7 +5,6 @@ import (
 	"fmt"
 
 	"github.com/onflow/atree"
-	tu "github.com/onflow/atree/test_utils"
 )
 
 func isCategory(err error) (user, fatal, external bool) {
@@ -93,7 +92,7 @@ func OInject(w *World, keys []int) error {
 									return false, injected
 								}
 							}
-							return tu.CompareValue(st, v, s)
+							return CompareValue(st, v, s)
 						}
 						hip := func(v atree.Value, b []byte) ([]byte, error) {
 							if which == "hip" {
@@ -102,7 +101,7 @@ func OInject(w *World, keys []int) error {
 									return nil, injected
 								}
 							}
-							return tu.GetHashInput(v, b)
+							return GetHashInput(v, b)
 						}
 						var err error
 						if opn == "Get" {
@@ -149,7 +148,7 @@ func OInject(w *World, keys []int) error {
 					m, err = atree.NewMapWithRootID(st, c.SID, w.builderFor(c))
 					what = fmt.Sprintf("open map c%d", c.Serial)
 					if err == nil && li < nLook {
-						_, err = m.Get(tu.CompareValue, tu.GetHashInput, ToAtree(w.KeyOf(keys[li])))
+						_, err = m.Get(CompareValue, GetHashInput, ToAtree(w.KeyOf(keys[li])))
 						what = fmt.Sprintf("map c%d Get(k%d)", c.Serial, keys[li])
 						var knf *atree.KeyNotFoundError
 						if errors.As(err, &knf) && l.ReadCount <= fail {
